@@ -134,7 +134,8 @@ CLAIMS = {
              "room (dominating capacity step, or a merge pre-sized from the raw slot counts with one insert per source "
              "slot); link/item pointers from find() not used after a possible reallocation (BORROW dataflow); "
              "remove()'s unlink/tombstone/clear; rehash after sort/resize/copy numbering every slot; bucket formula "
-             "siblings and power-of-two capacity; Rename's append-before-unlink order under its two guards. Matching "
+             "siblings and power-of-two capacity; Rename's append-before-unlink order under its two guards; a match by "
+             "stored hash is confirmed by a key comparison. Matching "
              "is by data flow and field names, not by local variable names. Not decided: map semantics over histories.",
         note=TRUST + "Memory::AlignSize is assumed to return a power of two >= its argument.",
         technique="static analysis: protocol/ordering checks on the exported AST/CFG, sibling comparison, borrow dataflow",
@@ -199,14 +200,17 @@ CLAIMS = {
         technique="static analysis: interprocedural region/effect analysis with root propagation over the instantiated call graph, who-may-call and dominance checks",
         ref="DESIGN.md section 4 C17, section 3.1 E-FX"),
     "C18": dict(
-        text="Static analysis, partial: in Value::GroupBy the grouping key is consulted for every member of every "
-             "element (use of the key parameters inside the element/member loops); on a removed member the walk "
-             "continues (CFG reachability from the 'member is Undefined' edge must not reach a return before the loop "
-             "condition); the source is touched only through read-only operations and never moved from, the result is "
-             "reset to an object first; renderLoop passes the group attribute with the base the scanner recorded and "
-             "groups/sorts a by-value working copy. Necessary structural clauses; not the partition equality.",
+        text="Static analysis, partial: in Value::GroupBy a value that carries the group's name (the key parameters or "
+             "locals computed from them alone) is compared or looked up against something that varies per element, "
+             "inside the element loop (taint flow; a position found once on the first element does not count); a match "
+             "by stored hash is confirmed by a key comparison; on a removed member the walk continues (CFG "
+             "reachability from the 'member is Undefined' edge must not reach a return before the loop condition); "
+             "GroupBy and its callees write only the result and locals (effect summary of the instantiation view: no "
+             "store into the receiver or anything reached through it), the result is reset to an object first; "
+             "renderLoop passes the group attribute with the base the scanner recorded and groups/sorts a by-value "
+             "working copy. Necessary structural clauses; not the partition equality.",
         note=TRUST,
-        technique="static analysis: parameter-use flow and CFG reachability checks, read-only call accounting",
+        technique="static analysis: taint flow of the key parameters, CFG reachability, interprocedural effect summary (physical constness)",
         ref="DESIGN.md section 4 C18"),
     "C19": dict(
         text="Static analysis, thin: E-ZONE under the class invariant index_ <= MaxIndex() (assumed on entry, proven "
